@@ -144,6 +144,15 @@ Example c12_example_weight :
   rate_to_n (f32_of_bits 1053609165) 0 = 2%N /\ rate_to_n (f32_of_bits 1053609165) (2 ^ 64 - 1) = 3%N /\
   rate_to_n (f32_of_bits 1) 0 = u64_max.
 Proof. vm_compute. repeat split; reflexivity. Qed.
+(* the premises of c12_weight_link_rate / c12_weight_within_one are satisfiable: rate 0.4f32 *)
+Example c12_example_link_premises :
+  let rate := f32_of_bits 1053609165 in
+  Binary.is_finite 24 128 rate = true /\ (0 < R32 rate)%R /\ (R32 rate <= 1)%R /\ (bpow radix2 (-52) <= R32 rate)%R.
+Proof. eapply rate_premises_by_Q; [vm_compute; reflexivity | vm_compute; reflexivity | vm_compute; reflexivity]. Qed.
+(* ... and of c12_weight_saturates: the smallest positive f32 *)
+Example c12_example_saturation_premises :
+  Binary.is_finite 24 128 (f32_of_bits 1) = true /\ (R32 (f32_of_bits 1) < bpow radix2 (-63))%R.
+Proof. eapply rate_tiny_by_Q; [vm_compute; reflexivity | vm_compute; reflexivity]. Qed.
 Example c12_example_decision :
   fixed_format (f32_of_bits 1053609165) (6710886 * 256) = Some (f32_of_bits 1053609165) /\
   fixed_format (f32_of_bits 1053609165) (6710887 * 256) = None.
